@@ -21,7 +21,7 @@ BUDGET_S = {"quick": 150, "thorough": 3000}
 
 DEPTH = {"quick": 2, "thorough": 3}
 SLICES = {"quick": 8, "thorough": 32}
-VARIANTS = {"quick": (0, 1), "thorough": (0, 1, 2, 3)}
+VARIANTS = {"quick": (0, 100, 1), "thorough": (0, 1, 2, 3, 100, 101)}
 RESTRICTED = ("R3", "R5", "R6", "R8")
 LEVEL2_QUICK = ("R3", "R5", "R6", "R8L", "R2L", "R4")  # quick tier: the second rewrite is a feature-interaction kind
 
